@@ -544,7 +544,9 @@ func isPlainValue(v value.Value) bool {
 
 func genUpdateObject(r *gen.Rng, c *typCtx, st *updState, rootRef sgen.Ref, tr schema.TypeRef, pool []interface{}) interface{} {
 	liveU := gen.DeepCopy(normalize(st.live.AsValue().Unstructured()))
-	switch r.Intn(5) {
+	switch r.Intn(6) {
+	case 5: // live with a twin of some list item whose key field is an explicit null
+		return nullKeyTwin(r, liveU)
 	case 0: // a fresh object
 		return rootValue(c, r, rootRef, 3, &sgen.VOpts{Plain: r.Chance(70), KeySpace: 3, Dups: r.Chance(30)})
 	case 1, 2: // live merged with something
@@ -580,6 +582,45 @@ func genUpdateObject(r *gen.Rng, c *typCtx, st *updState, rootRef sgen.Ref, tr s
 
 // normalize converts map[interface{}]interface{} (never produced here) and typed nils; identity otherwise.
 func normalize(v interface{}) interface{} { return v }
+
+// nullKeyTwin: somewhere in the object a list of maps gets a copy of one of its items in which one of
+// the (possible) key fields is an explicit null: another item than the original, also when the
+// original relies on the schema default of that key.
+func nullKeyTwin(r *gen.Rng, v interface{}) interface{} {
+	switch t := v.(type) {
+	case map[string]interface{}:
+		keys := make([]string, 0, len(t))
+		for k := range t {
+			keys = append(keys, k)
+		}
+		sort.Strings(keys)
+		out := map[string]interface{}{}
+		for k, x := range t {
+			out[k] = x
+		}
+		for _, k := range keys {
+			if l, ok := t[k].([]interface{}); ok && len(l) > 0 && r.Chance(60) {
+				if item, ok := l[r.Intn(len(l))].(map[string]interface{}); ok {
+					twin := map[string]interface{}{}
+					for kk, x := range item {
+						twin[kk] = x
+					}
+					twin[gen.Pick(r, []string{"proto", "proto", "name", "id", "port"})] = nil
+					out[k] = append(append([]interface{}{}, l...), twin)
+					return out
+				}
+			}
+		}
+		for _, k := range keys {
+			if _, ok := t[k].(map[string]interface{}); ok {
+				out[k] = nullKeyTwin(r, t[k])
+				return out
+			}
+		}
+		return out
+	}
+	return v
+}
 
 func addDuplicate(r *gen.Rng, v interface{}) interface{} {
 	switch t := v.(type) {
@@ -985,6 +1026,29 @@ func judgeApply(o *Out, op string, c *typCtx, ig ignoreCfg, up *merge.Updater, s
 	}
 	// C01: the configuration takes effect (plain domain). Under an ignore configuration the same
 	// demand is C19's "values of ignored fields are merged and returned like any other".
+	if plain && ig.kind == "none" {
+		// independently of the library's own path-element construction: every leaf of the configuration
+		// resolves in the result (by key fields incl. schema defaults) to the configuration's scalar
+		cu, ru := cfg.AsValue().Unstructured(), result.AsValue().Unstructured()
+		fsCfg.Leaves().Iterate(func(p fieldpath.Path) {
+			want, ok1 := nodeAt(c.sc, cfg.TypeRef(), cu, p)
+			got, ok2 := nodeAt(c.sc, cfg.TypeRef(), ru, p)
+			if !ok1 {
+				return
+			}
+			if !ok2 {
+				o.Fail("C01", "configuration-takes-effect", "absent: "+p.String(), "configuration-takes-effect/resolver "+op, op)
+				return
+			}
+			switch want.(type) {
+			case map[string]interface{}, []interface{}:
+			default:
+				if !value.Equals(value.NewValueInterface(want), value.NewValueInterface(got)) {
+					o.Fail("C01", "configuration-takes-effect", "other value at "+p.String(), "configuration-takes-effect/resolver "+op, op)
+				}
+			}
+		})
+	}
 	if plain {
 		ex := result.ExtractItems(fsCfg.Leaves())
 		if cmp, err := cfg.Compare(ex); err != nil || !cmp.IsSame() {
@@ -1229,32 +1293,32 @@ func sameRootKind(a, b *typed.TypedValue) bool {
 // present is the independent path resolver of C06: does p designate something in the unstructured
 // object u of type tr?  (fields by key, keyed items by their key fields incl. schema defaults, set
 // members by value, indexes by position; the empty path is the object itself.)
-func present(sc *schema.Schema, tr schema.TypeRef, u interface{}, p fieldpath.Path) bool {
+func nodeAt(sc *schema.Schema, tr schema.TypeRef, u interface{}, p fieldpath.Path) (interface{}, bool) {
 	if len(p) == 0 {
-		return true
+		return u, true
 	}
 	atom, ok := sc.Resolve(tr)
 	if !ok {
-		return false
+		return nil, false
 	}
 	pe := p[0]
 	switch t := u.(type) {
 	case map[string]interface{}:
 		if pe.FieldName == nil || atom.Map == nil {
-			return false
+			return nil, false
 		}
 		child, ok := t[*pe.FieldName]
 		if !ok {
-			return false
+			return nil, false
 		}
 		ft := atom.Map.ElementType
 		if sf, ok := atom.Map.FindField(*pe.FieldName); ok {
 			ft = sf.Type
 		}
-		return present(sc, ft, child, p[1:])
+		return nodeAt(sc, ft, child, p[1:])
 	case []interface{}:
 		if atom.List == nil {
-			return false
+			return nil, false
 		}
 		for i, item := range t {
 			match := false
@@ -1295,11 +1359,18 @@ func present(sc *schema.Schema, tr schema.TypeRef, u interface{}, p fieldpath.Pa
 					}
 				}
 			}
-			if match && present(sc, atom.List.ElementType, item, p[1:]) {
-				return true
+			if match {
+				if x, ok := nodeAt(sc, atom.List.ElementType, item, p[1:]); ok {
+					return x, true
+				}
 			}
 		}
-		return false
+		return nil, false
 	}
-	return false
+	return nil, false
+}
+
+func present(sc *schema.Schema, tr schema.TypeRef, u interface{}, p fieldpath.Path) bool {
+	_, ok := nodeAt(sc, tr, u, p)
+	return ok
 }
